@@ -125,7 +125,10 @@ def build_and_run(tier, seed, sanitize=False):
         for cname, fmt in CONTEXTS:
             if cname != "top" and tier == "quick" and not mutate and name not in ("rep_one_13", "pred_and", "max8", "raw_contents", "http_chunk", "signed", "unsigned"):
                 continue
-            grams.append((gid, name, cname, fmt % rule, ins if cname == "top" else ins[:max(40, len(ins) // 3)]))
+            if cname == "every_offset" and name in ("uri_ref", "http", "iri"):
+                continue          # large grammars retried at every offset: tens of thousands of rule attempts per case, nothing new
+            sub = ins if cname == "top" else [x for x in ins if len(x) <= 28][:max(40, len(ins) // 3)]
+            grams.append((gid, name, cname, fmt % rule, sub))
             gid += 1
     per = 10
     chunks = [grams[i:i + per] for i in range(0, len(grams), per)]
@@ -187,7 +190,7 @@ def build_and_run(tier, seed, sanitize=False):
         env["ASAN_OPTIONS"] = "detect_leaks=0"
         if sanitize:
             env["VH_NOTAIL"] = "1"
-        env["VH_MAX_STEPS"] = "3000000"
+        env["VH_MAX_STEPS"] = "60000"
         try:
             pi = subprocess.run([exe, "run", cases], stdout=subprocess.PIPE, stderr=subprocess.PIPE, text=True, errors="replace", timeout=1800, env=env)
         except subprocess.TimeoutExpired:
@@ -242,7 +245,7 @@ def run_oracle(ctx, pid, sanitize=False):
         K = _K()
         K.table = r["table"]
         if r["res"] == "RUNAWAY":
-            cnt["runaway_runs_skipped"] += 1      # more than 3e6 rule attempts: not a C02/C03 matter, reported in the evidence only
+            cnt["runaway_runs_skipped"] += 1      # more than 6e4 rule attempts: not a C02/C03 matter, reported in the evidence only
             continue
         fam[r["family"] + "/" + r["ctx"] + "/" + r["res"][:1]] += 1
         for msg in oracle(K, r, cnt)[:2]:
